@@ -1049,6 +1049,8 @@ class Interp(object):
         sub = self.comp_frame(frame)
         first = self.eval(node.generators[0].iter, frame)
         tbl = self._dictcomp_over_counted_seq(node, first, sub)
+        if tbl is None:
+            tbl = self._dictcomp_keyed_by_elements(node, first, frame)
         if tbl is not None:
             return tbl
         d = DictVal()
@@ -1059,6 +1061,39 @@ class Interp(object):
             v = self.eval(node.value, fr)
             self.dict_set(d, k, v)
         self._comp(fake, first, sub, emit)
+        return d
+
+    def _dictcomp_keyed_by_elements(self, node, first, frame):
+        """Engine rule:  {x: V for x in xs}  over a symbolic sequence xs of strings, V a name / attribute /
+        constant that does not mention x: the dictionary whose keys are exactly the elements of xs, every
+        one bound to V.  Returned as an abstractly given dictionary (membership = Contains(xs, <k>))."""
+        g = node.generators[0]
+        if len(node.generators) != 1 or g.ifs or not (isinstance(first, SeqVal) and self.seq_len_unknown(first)
+                                                       and first.elem == 'str'):
+            return None
+        if not (isinstance(g.target, ast.Name) and isinstance(node.key, ast.Name) and node.key.id == g.target.id):
+            return None
+        if not isinstance(node.value, (ast.Name, ast.Attribute, ast.Constant)) or \
+                any(isinstance(n, ast.Name) and n.id == g.target.id for n in ast.walk(node.value)):
+            return None
+        value = self.eval(node.value, frame)
+        xs = first
+        d = DictVal()
+        d.size = None
+
+        def base(it2, key):
+            if isinstance(key, str):
+                k = it2.p.facts.strlit(key)
+            elif smt.is_z3(key) and smt.is_str_term(key):
+                k = key
+            elif isinstance(key, Obj) and smt.is_z3(key.fields.get('name')) and smt.is_str_term(key.fields['name']):
+                k = key.fields['name']
+            else:
+                raise Unsupported('lookup in a dictionary keyed by the strings of a sequence with key %r' % (key,))
+            if it2.p.branch(z3.Contains(xs.term, z3.Unit(k))):
+                return True, value
+            return False, None
+        d.base = base
         return d
 
     def _dictcomp_over_counted_seq(self, node, first, sub):
